@@ -483,12 +483,17 @@ class FitBase(FileIOMixin, object):
 
     @data.setter
     def data(self, new_data):
-        self._set_new_data(new_data)
-        # validate cost function
-        _data_and_cost_compatible, _reason = self._cost_function.is_data_compatible(self.data)
-        if not _data_and_cost_compatible:
-            raise ValueError("Fit data and cost function are not compatible: %s" % _reason)
-        self._set_new_parametric_model()
+        _previous_data_container = self._data_container
+        try:
+            self._set_new_data(new_data)
+            # validate cost function
+            _data_and_cost_compatible, _reason = self._cost_function.is_data_compatible(self.data)
+            if not _data_and_cost_compatible:
+                raise ValueError("Fit data and cost function are not compatible: %s" % _reason)
+            self._set_new_parametric_model()
+        except Exception:
+            self._data_container = _previous_data_container  # rejected data must leave the fit unchanged
+            raise
         self._param_model._on_error_change_callback = self._on_error_change
         # the new containers bring their own uncertainties: cached error nodes and minimizer state are outdated
         self._fitter.reset_minimizer()
